@@ -349,6 +349,10 @@ var histCmds = []histCmd{
 	{"rollback", "rollback", ""},
 	{"select", "select id, v from tc where id = 1", "plain"},
 	{"insert", "insert into tc (id, v) values (1, 'a')", "write"},
+	// the same statements while the environment breaks the statement's backend connection
+	// (socket error / connection closed by max_sql_execute_time): error + connection closed
+	{"select!", "select id, v from tc where id = 1", "plain"},
+	{"insert!", "insert into tc (id, v) values (1, 'a')", "write"},
 	// thorough only:
 	{"show", "show variables like 'version'", "plain"},
 	{"for-update", "select id, v from tc where id = 1 for update", "lock"},
@@ -425,12 +429,31 @@ func (m *txModel) state() string {
 func runHistory(r *ev.Run, s *rig.Sess, c caseT) outcome {
 	var o outcome
 	m := txModel{autocommit: true}
+	failedBefore := 0 // backend failures so far; they never change the reference tx state
 	r.Add("evaluations", 1)
 	r.Add("histories", 1)
 	var trace []string
 	for i, name := range c.Hist {
 		h := histCmdByName(name)
-		rep := s.Query(h.SQL)
+		var rep rig.Reply
+		broke := false
+		if strings.HasSuffix(name, "!") {
+			rep, broke = s.QueryBackendBreaks(h.SQL)
+			if broke {
+				r.Add("history_backend_failures", 1)
+				if !(rep.Err || rep.Closed) {
+					ev.Fatalf("rig: statement %q answered OK although its backend connection broke (history %v)", h.SQL, c.Hist)
+				}
+				if rep.Closed {
+					// the proxy closed the client connection: nothing follows
+					trace = append(trace, name+"[session closed]")
+					break
+				}
+				failedBefore++
+			}
+		} else {
+			rep = s.Query(h.SQL)
+		}
 		if h.Class == "" {
 			if rep.Err || rep.Closed {
 				ev.Fatalf("rig: control command %q failed in history %v: %+v", h.SQL, c.Hist, rep)
@@ -466,6 +489,9 @@ func runHistory(r *ev.Run, s *rig.Sess, c caseT) outcome {
 				if tx == "none" && i > 0 && served == "replica" {
 					r.Add("history_replica_after_transaction_ended", 1)
 				}
+				if tx != "none" && !broke && failedBefore > 0 && served == "master" {
+					r.Add("history_master_after_backend_failure_in_transaction", 1)
+				}
 			}
 		}
 		if rule == "" || served == "none" || served == "master" {
@@ -484,6 +510,7 @@ func runHistory(r *ev.Run, s *rig.Sess, c caseT) outcome {
 				"user": c.User, "check_select_lock": c.CSL, "tx": tx, "transport": "history",
 				"rule": rule, "served": served, "before": prev,
 				"transactions_ended_in_autocommit0": fmt.Sprint(min(m.ended, 2)),
+				"backend_failures_before":           fmt.Sprint(min(failedBefore, 2)), "this_statement_broke": fmt.Sprint(broke),
 			},
 			Case: c,
 		})
@@ -721,20 +748,31 @@ func main() {
 	// {set autocommit=0, set autocommit=1, begin, commit, rollback, select, insert} (thorough:
 	// plus show, select ... for update, start transaction) that contains a data command, for
 	// every user; each data command is judged under the transaction state the history defines
-	nc, maxLen := 7, 4
+	// fault budget: at most one command of a history breaks its backend connection
+	nc, maxLen := 9, 4
 	if !r.Quick() {
 		nc, maxLen = len(histCmds), 5
 	}
-	nHist := 0
+	nHist, nFaultHist := 0, 0
 	enum.Seqs(nc, 2, maxLen, func(seq []int) {
 		hist := make([]string, len(seq))
 		data := false
+		faults := 0
 		for i, x := range seq {
 			hist[i] = histCmds[x].Name
 			data = data || histCmds[x].Class != ""
+			if strings.HasSuffix(hist[i], "!") {
+				faults++
+			}
 		}
 		if !data || histCmds[seq[len(seq)-1]].Class == "" {
 			return // ends with a control command: the same judgements as its prefix
+		}
+		if faults > 1 {
+			return
+		}
+		if faults == 1 {
+			nFaultHist++
 		}
 		for _, u := range users {
 			all = append(all, caseT{Form: "history", Class: "history", Lead: "none", Trail: "none", Case: "lower", Space: "blank",
@@ -743,6 +781,7 @@ func main() {
 		}
 	})
 	r.Set("history_cases", nHist)
+	r.Set("history_sequences_with_a_backend_failure", nFaultHist)
 
 	var mu sync.Mutex
 	sampled := map[string]bool{}
@@ -780,6 +819,9 @@ func main() {
 	r.Assume("read-only users outside a transaction are documented (docs/faq.md) to be served by replicas even for hinted / locking reads; they are observed, not judged")
 	r.Assume("only the documented hint spelling /*master*/ (any letter case) is judged; /*+ master */ is observed only")
 	// self-test of the harness; when the run has unexplained violations they are the verdict
+	if r.Violations() == 0 && r.Count("history_master_after_backend_failure_in_transaction") == 0 {
+		ev.Fatalf("vacuous: no statement was served by the master after a backend failure inside a transaction")
+	}
 	if r.Violations() == 0 && (r.Count("history_master_in_later_autocommit0_transaction") == 0 || r.Count("history_replica_after_transaction_ended") == 0) {
 		ev.Fatalf("vacuous: histories: master in a later autocommit=0 transaction=%d, replica after a transaction ended=%d",
 			r.Count("history_master_in_later_autocommit0_transaction"), r.Count("history_replica_after_transaction_ended"))
